@@ -313,6 +313,171 @@ Proof.
   - apply IHl; [intros; apply Hin; right; assumption | inversion ND; assumption].
 Qed.
 
+(* ------------------------------------------------------------------ the writer over a failing transport *)
+Lemma seal_chunks_nodup : forall l c, c + N.of_nat (length l) <= max_uint64 + 1 ->
+  NoDup (map sl_nonce (seal_chunks c l)).
+Proof.
+  intros l c B. rewrite seal_chunks_nonces.
+  set (n := length l) in *.
+  assert (Hin : forall x, In x (nseq c n) -> x <= max_uint64).
+  { intros x Hx. apply nseq_in in Hx. lia. }
+  pose proof (nseq_nodup n c) as ND. revert Hin ND. generalize (nseq c n). intro l0.
+  induction l0 as [|x l0 IHl]; intros Hin ND; cbn [map]; constructor.
+  - intro H. apply in_map_iff in H. destruct H as (y & E & Hy).
+    apply nonce_of_inj in E; [| apply le_max_lt; apply Hin; right; exact Hy
+                              | apply le_max_lt; apply Hin; left; reflexivity].
+    subst y. inversion ND; contradiction.
+  - apply IHl; [intros; apply Hin; right; assumption | inversion ND; assumption].
+Qed.
+
+Definition call_nc (s : seal_call cipher) : bytes * cipher := (sl_nonce s, sl_out s).
+
+(* what one Write does over a transport with scripted outcomes, in terms of the chunks it seals:
+   [chunks] were sealed and handed to conn.Write (the last one possibly failing there), [extra]
+   is the chunk sealed just before an overflow panic *)
+Record write_spec_t (c : N) (w : wres_t cipher) (chunks extra : list bytes) : Prop := {
+  wst_ok : Forall chunk_ok chunks;
+  wst_calls : wt_calls w = seal_chunks c (chunks ++ extra);
+  wst_wire : map fst (wt_wire w) = map call_nc (seal_chunks c chunks);
+  wst_bound : c + N.of_nat (length chunks) <= max_uint64;
+  wst_fine : wt_panic w = false ->
+             extra = [] /\ wt_nonce w = nonce_of pre (c + N.of_nat (length chunks));
+  wst_panic : wt_panic w = true ->
+              length extra = 1%nat /\ c + N.of_nat (length chunks) = max_uint64
+}.
+
+Lemma write_loop_t_spec : forall fuel data c outs, c <= max_uint64 -> (length data < fuel)%nat ->
+  exists chunks extra,
+    write_spec_t c (write_loop_t key cipher seal pool fuel k (nonce_of pre c) data outs) chunks extra.
+Proof.
+  induction fuel as [|f IH]; intros data c outs Hc Hf; [lia|].
+  cbn [write_loop_t].
+  destruct (0 <? length data)%nat eqn:E0.
+  2:{ exists [], []. constructor; cbn; auto; try lia.
+      intros _. rewrite N.add_0_r. auto. }
+  apply Nat.ltb_lt in E0.
+  set (chunk := if (data_max_size <? length data)%nat then firstn data_max_size data else data).
+  set (rest := if (data_max_size <? length data)%nat then skipn data_max_size data else []).
+  assert (Hsplit : data = chunk ++ rest).
+  { unfold chunk, rest. destruct (data_max_size <? length data)%nat.
+    - symmetry. apply firstn_skipn.
+    - symmetry. apply app_nil_r. }
+  assert (Hok : chunk_ok chunk).
+  { unfold chunk_ok, chunk. pose proof data_max_size_pos.
+    destruct (data_max_size <? length data)%nat eqn:E.
+    - apply Nat.ltb_lt in E. rewrite firstn_length. lia.
+    - apply Nat.ltb_ge in E. lia. }
+  assert (Hrest : (length rest < f)%nat).
+  { unfold chunk_ok in Hok. apply (f_equal (@length N)) in Hsplit. rewrite app_length in Hsplit. lia. }
+  rewrite (incr_nonce_of pre c Hpre (le_max_lt c Hc)).
+  destruct (c =? max_uint64) eqn:Ec.
+  - apply N.eqb_eq in Ec.
+    exists [], [chunk]. constructor; cbn [wt_calls wt_wire wt_n wt_panic wt_nonce wt_err wt_outs]; auto.
+    + rewrite N.add_0_r. lia.
+    + discriminate.
+    + intros _. split; [reflexivity | cbn; lia].
+  - apply N.eqb_neq in Ec.
+    assert (Hc1 : c + 1 <= max_uint64) by lia.
+    assert (Hgo : forall outs',
+      exists chunks extra,
+        write_spec_t c
+          (let r := write_loop_t key cipher seal pool f k (nonce_of pre (c + 1)) rest outs' in
+           {| wt_n := length chunk + wt_n r;
+              wt_calls := {| sl_nonce := nonce_of pre c;
+                             sl_plain := mk_frame chunk (pool (nonce_of pre c));
+                             sl_out := seal k (nonce_of pre c) (mk_frame chunk (pool (nonce_of pre c))) |}
+                          :: wt_calls r;
+              wt_wire := (nonce_of pre c, seal k (nonce_of pre c) (mk_frame chunk (pool (nonce_of pre c))), TOk)
+                         :: wt_wire r;
+              wt_nonce := wt_nonce r; wt_panic := wt_panic r; wt_err := wt_err r;
+              wt_outs := wt_outs r |}) chunks extra).
+    { intro outs'.
+      destruct (IH rest (c + 1) outs' Hc1 Hrest) as (chunks & extra & S).
+      set (r := write_loop_t key cipher seal pool f k (nonce_of pre (c + 1)) rest outs') in *.
+      exists (chunk :: chunks), extra.
+      destruct S as [S1 S2 S3 S4 S7 S8].
+      constructor; cbn [wt_calls wt_wire wt_n wt_panic wt_nonce wt_err wt_outs].
+      + constructor; assumption.
+      + cbn [app seal_chunks]. f_equal. exact S2.
+      + cbn [seal_chunks map fst]. unfold call_nc at 1. cbn [sl_nonce sl_out]. f_equal. exact S3.
+      + cbn [length]. lia.
+      + intro P. destruct (S7 P) as [-> ->]. split; [reflexivity|]. f_equal. cbn [length]. lia.
+      + intro P. destruct (S8 P) as [X Y]. split; [exact X | cbn [length]; lia]. }
+    destruct outs as [|[|m] outs'].
+    + cbn [tl]. apply Hgo.
+    + cbn [tl]. apply Hgo.
+    + exists [chunk], []. constructor; cbn [wt_calls wt_wire wt_n wt_panic wt_nonce wt_err wt_outs].
+      * constructor; [exact Hok | constructor].
+      * reflexivity.
+      * reflexivity.
+      * cbn [length]. lia.
+      * intros _. split; [reflexivity|]. f_equal.
+      * discriminate.
+Qed.
+
+Lemma write_t_spec_ex : forall data c outs, c <= max_uint64 ->
+  exists chunks extra,
+    write_spec_t c (write_t key cipher seal pool k (nonce_of pre c) data outs) chunks extra.
+Proof. intros. apply write_loop_t_spec; [assumption | lia]. Qed.
+
+Definition all_calls_t (W : list (wres_t cipher)) : list (seal_call cipher) :=
+  flat_map (@wt_calls cipher) W.
+Definition all_wire_t (W : list (wres_t cipher)) : list (bytes * cipher * tout) :=
+  flat_map (@wt_wire cipher) W.
+
+Record session_spec_t (c : N) (W : list (wres_t cipher)) (chunks extra : list bytes) : Prop := {
+  sst_ok : Forall chunk_ok chunks;
+  sst_calls : all_calls_t W = seal_chunks c (chunks ++ extra);
+  sst_wire : map fst (all_wire_t W) = map call_nc (seal_chunks c chunks);
+  sst_bound : c + N.of_nat (length chunks) <= max_uint64;
+  sst_extra : (length extra <= 1)%nat
+}.
+
+Lemma run_writes_t_spec : forall ws c outs, c <= max_uint64 ->
+  exists chunks extra,
+    session_spec_t c (run_writes_t key cipher seal pool k (nonce_of pre c) ws outs) chunks extra.
+Proof.
+  induction ws as [|d ws IH]; intros c outs Hc.
+  - exists [], []. constructor; unfold all_calls_t, all_wire_t;
+      cbn [run_writes_t flat_map seal_chunks map app length N.of_nat]; auto; try lia.
+  - cbn [run_writes_t].
+    destruct (write_t_spec_ex d c outs Hc) as (ch1 & ex1 & S).
+    set (w := write_t key cipher seal pool k (nonce_of pre c) d outs) in *.
+    destruct S as [S1 S2 S3 S4 S7 S8].
+    destruct (wt_panic w) eqn:P.
+    + destruct (S8 eq_refl) as [X Y].
+      exists ch1, ex1. constructor; unfold all_calls_t, all_wire_t; cbn [flat_map];
+        rewrite ?app_nil_r; auto. lia.
+    + destruct (S7 eq_refl) as [-> Hn]. rewrite Hn.
+      destruct (IH (c + N.of_nat (length ch1)) (wt_outs w) S4) as (ch2 & ex2 & T).
+      set (W' := run_writes_t key cipher seal pool k (nonce_of pre (c + N.of_nat (length ch1))) ws (wt_outs w)) in *.
+      destruct T as [T1 T2 T3 T4 T5].
+      exists (ch1 ++ ch2), ex2. constructor; unfold all_calls_t, all_wire_t in *; cbn [flat_map].
+      * apply Forall_app; split; assumption.
+      * rewrite <- app_assoc, seal_chunks_app, S2, T2, app_nil_r. reflexivity.
+      * rewrite seal_chunks_app, !map_app, S3, T3. reflexivity.
+      * rewrite app_length, Nat2N.inj_add. lia.
+      * exact T5.
+Qed.
+
+(* with a transport that never fails (empty script) this is the Write of Model.write_loop *)
+Lemma write_loop_t_nofault : forall fuel nonce data,
+  let w := write_loop_t key cipher seal pool fuel k nonce data [] in
+  let w0 := write_loop key cipher seal pool fuel k nonce data in
+  wt_n w = w_n w0 /\ wt_calls w = w_calls w0 /\ map fst (wt_wire w) = w_wire w0 /\
+  wt_nonce w = w_nonce w0 /\ wt_panic w = w_panic w0 /\ wt_err w = false /\ wt_outs w = [].
+Proof.
+  induction fuel as [|f IH]; intros nonce data; cbn [write_loop_t write_loop].
+  - cbn. auto 10.
+  - destruct (0 <? length data)%nat; [|cbn; auto 10].
+    destruct (incr_nonce nonce) as [nonce'|]; [|cbn; auto 10].
+    cbn [tl].
+    match goal with |- context [write_loop_t _ _ _ _ f k nonce' ?r []] =>
+      destruct (IH nonce' r) as (H1 & H2 & H3 & H4 & H5 & H6 & H7) end.
+    cbn [wt_n wt_calls wt_wire wt_nonce wt_panic wt_err wt_outs w_n w_calls w_wire w_nonce w_panic map fst].
+    rewrite H1, H2, H3, H4, H5, H6, H7. auto 10.
+Qed.
+
 (* ------------------------------------------------------------------ the reader *)
 Hypothesis open_seal : forall n p, open k n (seal k n p) = Some p.
 Variable cipher_eq_dec : forall a b : cipher, {a = b} + {a <> b}.
@@ -606,6 +771,9 @@ Proof.
 Qed.
 End StreamProofs.
 
+Arguments all_calls_t {cipher} W.
+Arguments all_wire_t {cipher} W.
+Arguments call_nc {cipher} s.
 Arguments all_calls {cipher} W.
 Arguments all_sent {cipher} W.
 Arguments all_wire {cipher} W.
@@ -731,6 +899,121 @@ Lemma nonce_unique : forall c0 ws, c0 <= max_uint64 ->
   NoDup (map sl_nonce (all_calls (run_writes key cipher seal pool k (nonce_of pre c0) ws))).
 Proof. intros. apply session_nonces_nodup; assumption. Qed.
 End Final2.
+
+(* ------------------------------------------------------------------ the writer over a failing transport *)
+(* what a writing session looks like from outside, field by field *)
+Definition wt_view {cipher} (w : wres_t cipher) :=
+  (wt_n w, wt_calls w, map fst (wt_wire w), wt_nonce w, wt_panic w, wt_err w).
+Definition w_view {cipher} (w : wres cipher) :=
+  (w_n w, w_calls w, w_wire w, w_nonce w, w_panic w, false).
+
+(* the chunk a reader takes out of a frame's plaintext, and the plaintext stream carried by
+   the frames handed to the transport *)
+Definition frame_chunk (frame : bytes) : bytes :=
+  firstn (N.to_nat (le_dec (firstn 4 frame))) (skipn data_len_size frame).
+Definition handed_stream {cipher} (W : list (wres_t cipher)) : bytes :=
+  concat (map (fun s => frame_chunk (sl_plain s)) (firstn (length (all_wire_t W)) (all_calls_t W))).
+
+Section Final3.
+Variables key cipher : Type.
+Variable seal : key -> bytes -> bytes -> cipher.
+Variable open : key -> bytes -> cipher -> option bytes.
+Variable pool : bytes -> bytes.
+Variable k : key.
+Variable pre : bytes.
+Hypothesis Hpre : length pre = 4%nat.
+
+(* every Seal call of a session uses its own nonce, whatever the transport does with the frames;
+   the frames handed to the transport are the Seal outputs under counters c0, c0+1, ... *)
+Lemma nonce_unique_t : forall c0 ws outs, c0 <= max_uint64 ->
+  let W := run_writes_t key cipher seal pool k (nonce_of pre c0) ws outs in
+  NoDup (map sl_nonce (all_calls_t W)) /\
+  map (fun x : bytes * cipher * tout => fst (fst x)) (all_wire_t W)
+    = map (nonce_of pre) (nseq c0 (length (all_wire_t W))) /\
+  exists last, (length last <= 1)%nat /\
+    map (fun s => (sl_nonce s, sl_out s)) (all_calls_t W) = map fst (all_wire_t W) ++ last.
+Proof.
+  intros c0 ws outs Hc W.
+  destruct (run_writes_t_spec key cipher seal pool k pre Hpre ws c0 outs Hc) as (chunks & extra & S).
+  fold W in S. destruct S as [S1 S2 S3 S4 S5].
+  assert (HL : length (all_wire_t W) = length chunks).
+  { rewrite <- (map_length fst), S3, map_length. apply seal_chunks_length. }
+  split; [|split].
+  - rewrite S2. apply seal_chunks_nodup; try exact Hpre. rewrite app_length, Nat2N.inj_add. lia.
+  - rewrite HL, <- (seal_chunks_nonces key cipher seal pool k pre chunks c0).
+    rewrite <- (map_map fst fst), S3, map_map. reflexivity.
+  - exists (map call_nc (seal_chunks key cipher seal pool k pre (c0 + N.of_nat (length chunks)) extra)).
+    split.
+    + rewrite map_length, seal_chunks_length. exact S5.
+    + rewrite S2, S3, seal_chunks_app, map_app; [reflexivity | exact Hpre].
+Qed.
+
+(* the state after a Write: sendNonce has moved past every frame that was sealed, also past the
+   one whose conn.Write failed *)
+Lemma nonce_advances : forall c d outs, c <= max_uint64 ->
+  let w := write_t key cipher seal pool k (nonce_of pre c) d outs in
+  wt_panic w = false ->
+  wt_nonce w = nonce_of pre (c + N.of_nat (length (wt_calls w))) /\
+  length (wt_wire w) = length (wt_calls w).
+Proof.
+  intros c d outs Hc w P.
+  destruct (write_t_spec_ex key cipher seal pool k pre Hpre d c outs Hc) as (chunks & extra & S).
+  fold w in S. destruct S as [S1 S2 S3 S4 S7 S8].
+  destruct (S7 P) as [-> Hn]. rewrite app_nil_r in S2.
+  rewrite S2, seal_chunks_length. split; [exact Hn|].
+  rewrite <- (map_length fst), S3, map_length. apply seal_chunks_length.
+Qed.
+
+Lemma no_fault_same : forall ws nonce,
+  map wt_view (run_writes_t key cipher seal pool k nonce ws []) =
+  map w_view (run_writes key cipher seal pool k nonce ws).
+Proof.
+  induction ws as [|d ws IH]; intro nonce; [reflexivity|].
+  cbn [run_writes_t run_writes map]. unfold write_t, write.
+  destruct (write_loop_t_nofault key cipher seal pool k (S (length d)) nonce d)
+    as (H1 & H2 & H3 & H4 & H5 & H6 & H7).
+  set (w := write_loop_t key cipher seal pool (S (length d)) k nonce d []) in *.
+  set (w0 := write_loop key cipher seal pool (S (length d)) k nonce d) in *.
+  f_equal.
+  - unfold wt_view, w_view. rewrite H1, H2, H3, H4, H5, H6. reflexivity.
+  - rewrite H5. destruct (w_panic w0); [reflexivity|]. rewrite H7, H4. apply IH.
+Qed.
+
+Hypothesis open_seal : forall n p, open k n (seal k n p) = Some p.
+Variable cipher_eq_dec : forall a b : cipher, {a = b} + {a <> b}.
+
+Lemma seal_chunks_plain : forall chunks c, Forall (chunk_ok) chunks ->
+  map (fun s => frame_chunk (sl_plain s)) (seal_chunks key cipher seal pool k pre c chunks) = chunks.
+Proof.
+  induction chunks as [|ch r IH]; intros c F; [reflexivity|].
+  inversion F as [|? ? [H1 H2] F']; subst.
+  cbn [seal_chunks map sl_plain]. f_equal; [|apply IH; exact F'].
+  unfold frame_chunk. rewrite (frame_parse_len _ _ H2), Nat2N.id. apply frame_parse_chunk. exact H2.
+Qed.
+
+(* the reader of a session whose writer's transport failed here and there: whatever reaches it,
+   it returns a prefix of the plaintext carried by the frames handed to the transport *)
+Lemma tamper_evident_t : forall c0 ws outs conn caps rs st' conn', c0 <= max_uint64 ->
+  let W := run_writes_t key cipher seal pool k (nonce_of pre c0) ws outs in
+  run_reads key cipher open k (reader_init (nonce_of pre c0)) conn caps = (rs, st', conn') ->
+  (exists rest, handed_stream W = concat (map rres_data rs) ++ rest)
+  \/ AeadForgeryOn open k (map fst (all_wire_t W)).
+Proof.
+  intros c0 ws outs conn caps rs st' conn' Hc W E.
+  destruct (run_writes_t_spec key cipher seal pool k pre Hpre ws c0 outs Hc) as (chunks & extra & S).
+  fold W in S. destruct S as [S1 S2 S3 S4 S5].
+  assert (HL : length (all_wire_t W) = length chunks).
+  { rewrite <- (map_length fst), S3, map_length. apply seal_chunks_length. }
+  destruct (run_reads_inv key cipher seal open pool k pre Hpre open_seal cipher_eq_dec c0 chunks S1 S4
+              caps (reader_init (nonce_of pre c0)) 0%nat [] conn rs st' conn'
+              (rinv_init pre Hpre c0 chunks S4) E) as [F | (j' & I)].
+  - right. unfold AeadForgeryOn. rewrite S3. exact F.
+  - left. cbn [app] in I. destruct (rinv_prefix _ _ _ _ _ _ I) as (r1 & E1).
+    exists r1. unfold handed_stream. rewrite HL, S2, seal_chunks_app by exact Hpre.
+    rewrite firstn_app_len by apply seal_chunks_length.
+    rewrite (seal_chunks_plain chunks c0 S1). exact E1.
+Qed.
+End Final3.
 
 Lemma nonce_no_wrap : forall pre c, length pre = 4%nat -> c <= max_uint64 ->
   match incr_nonce (nonce_of pre c) with
